@@ -175,6 +175,7 @@ def check_prune(trie, db, model, info, ref):
     for h, body in bodies.items():
         expect("stored-body-correct", db[h] == body, f"db[{h.hex()}] differs from the node body")
     rc = impl("ref_count", lambda: trie.ref_count)
+    expect("ref-count-true", hasattr(rc, "items"), lambda: f"ref_count is {rc!r}, not a mapping of node hash -> count")
     got = {bytes(h): c for h, c in rc.items() if c}
     expect_eq("ref-count-true", got, dict(counts), "reference counts")
     # the count reported for one node: indexing, for live nodes and for nodes that died
@@ -184,6 +185,7 @@ def check_prune(trie, db, model, info, ref):
         c = impl("ref_count", lambda: trie.ref_count[h])
         expect_eq("ref-count-true", int(c), counts.get(h, 0), f"ref_count[{h.hex()}]")
     regen = impl("regenerate_ref_count", trie.regenerate_ref_count)
+    expect("ref-count-equals-regenerated", hasattr(regen, "items"), lambda: f"regenerate_ref_count() returned {regen!r}")
     expect_eq("ref-count-equals-regenerated", {bytes(h): c for h, c in regen.items() if c},
               dict(counts), "regenerate_ref_count()")
     if counts and max(counts.values()) >= 2:
@@ -344,4 +346,5 @@ def play(trie, model, ops):
 
 def norm_counts(trie):
     rc = impl("ref_count", lambda: trie.ref_count)
+    expect("ref-count-true", hasattr(rc, "items"), lambda: f"ref_count is {rc!r}, not a mapping of node hash -> count")
     return {bytes(h): c for h, c in rc.items() if c}
